@@ -79,14 +79,15 @@ def _snap():
     return out
 
 
-FORMS = ["f:>a", "a∇f", ":a∇f?", "loss:>[a b]", "a∂g", "[a b]∂h", ".jacobian(g;a)"]
+FORMS = ["f:>a", "a∇f", ":a∇fa", "loss:>[a b]", "a∂g", "[a b]∂h", ".jacobian(g;a)"]
+TWO_PARAM = (3, 5)            # forms that differentiate with respect to a and b
 
 
 def purity(form: int, kind: int, kind2: int, k: int, mode: int) -> bool:
     """
-    pre: 0 <= form <= 5 and form == CFG.get('form', form)
+    pre: 0 <= form <= 6 and form == CFG.get('form', form)
     pre: 0 <= kind <= 4 and 0 <= kind2 <= 4 and kind == CFG.get('kind', kind)
-    pre: kind2 == 0 or ((form == 2 or form == 4) and (kind2 == 1 or kind2 == 3 or CFG.get('allkinds')))
+    pre: kind2 == 0 or ((form == 3 or form == 5) and (kind2 == 1 or kind2 == 3 or CFG.get('allkinds')))
     pre: 0 <= k <= CFG.get('kmax', 20)
     pre: 0 <= mode <= 2
     post: _
@@ -106,10 +107,9 @@ def purity(form: int, kind: int, kind2: int, k: int, mode: int) -> bool:
     K('loss::{(+/,/fl(a)*a)+(+/,/b*b)+cc}')         # niladic, refers to a and b
     K('g::{(fl(x)*x)+cc}')                          # vector-valued
     K('h::{((+/,/fl(a)*a)+cc),(+/,/b)}')            # niladic, vector-valued
-    f = pick([0, 1, 3, 4, 5, 6], form)
-    if f in (4, 5, 6) and np.ndim(pa) > 1:
-        pass
-    text = FORMS[f] if f != 1 else "a∇f"
+    K('fa::{(+/,/fl(a)*a)+cc}')                     # reads the GLOBAL a: the symbol-point form :a∇fa rebinds a for every probe
+    f = pick([0, 1, 2, 3, 4, 5, 6], form)
+    text = FORMS[f]
     before = _snap()
     f_before = None
     _S["n"] = 0; _S["at"] = -1
@@ -147,12 +147,12 @@ def bounds(tier):
 def obligations(tier):
     q = tier == "quick"
     obs = []
-    for form in range(6):
-        if form in (2, 4):          # two parameters: split by the kind of the first one
+    for form in range(7):
+        if form in TWO_PARAM:       # two parameters: split by the kind of the first one
             for kind in range(5):
-                obs.append({"name": "purity form=%s first parameter kind %d" % (FORMS[[0, 1, 3, 4, 5, 6][form]], kind), "fn": "purity",
+                obs.append({"name": "purity form=%s first parameter kind %d" % (FORMS[form], kind), "fn": "purity",
                             "cfg": {"form": form, "kind": kind, "kmax": 12 if q else 20, "allkinds": not q}, "timeout": 600 if q else 1500})
         else:
-            obs.append({"name": "purity form=%s" % FORMS[[0, 1, 3, 4, 5, 6][form]], "fn": "purity", "cfg": {"form": form, "kmax": 12 if q else 20},
+            obs.append({"name": "purity form=%s" % FORMS[form], "fn": "purity", "cfg": {"form": form, "kmax": 12 if q else 20},
                         "timeout": 400 if q else 1500})
     return obs
